@@ -8,7 +8,32 @@ from common import bits, unbits, fb, close, canon_hash
 ID = "C04"
 SECTIONS = []
 LEAN_MODULES = ["QExPy.Props.C04"]
-THEOREMS = []
+THEOREMS = ["QExPy.C04_key_unordered",
+            "QExPy.C04_inv_init",
+            "QExPy.C04_inv_step",
+            "QExPy.C04_inv_run",
+            "QExPy.C04_inv_all",
+            "QExPy.C04_reject_unchanged",
+            "QExPy.C04_get_pure",
+            "QExPy.C04_symmetric_get",
+            "QExPy.C04_symmetric_get_meth",
+            "QExPy.C04_symmetric_set",
+            "QExPy.C04_symmetric_set_api",
+            "QExPy.C04_refines_write",
+            "QExPy.C04_refines_reset",
+            "QExPy.C04_isolated",
+            "QExPy.C04_isolated_api",
+            "QExPy.C04_refines_get",
+            "QExPy.C04_unrecorded_zero",
+            "QExPy.C04_after_reset_zero",
+            "QExPy.C04_self",
+            "QExPy.C04_set_records",
+            "QExPy.C04_reject_zero_sigma",
+            "QExPy.C04_reject_corr_out_of_range",
+            "QExPy.C04_reject_cov_out_of_range",
+            "QExPy.C04_reject_non_measurement",
+            "QExPy.C04_reject_no_number",
+            "QExPy.C04_inferred_never_rejected"]
 RULE = ("seeded histories (5-60 requests) over 2-6 operands of all kinds (single measurements incl. "
         "zero uncertainty, plain reading arrays incl. equal length / collinear / zero spread, "
         "reading arrays with individual uncertainties, derived values, constants, plain numbers and "
